@@ -137,9 +137,9 @@ func loadPool(dir string) (map[string][]*poolKey, error) {
 
 type caSet struct {
 	rootKey, interKey *ecdsa.PrivateKey
-	root, inter      *x509.Certificate
-	serial           int64
-	mu               sync.Mutex
+	root, inter       *x509.Certificate
+	serial            int64
+	mu                sync.Mutex
 }
 
 func (ca *caSet) nextSerial() *big.Int {
